@@ -101,12 +101,12 @@ Qed.
 (* induction principle for the nested type *)
 Fixpoint arg_ind' (P : arg -> Prop)
   (HA : forall dt sh d, P (Arr dt sh d)) (HO : forall ty r, P (Oth ty r))
-  (HL : forall l, Forall P l -> P (Lst l)) (x : arg) : P x :=
+  (HL : forall k l, Forall P l -> P (Seq k l)) (x : arg) : P x :=
   match x with
   | Arr dt sh d => HA dt sh d
   | Oth ty r => HO ty r
-  | Lst l =>
-      HL l ((fix go (l : list arg) : Forall P l :=
+  | Seq k l =>
+      HL k l ((fix go (l : list arg) : Forall P l :=
                match l with
                | [] => Forall_nil P
                | y :: l' => Forall_cons y (arg_ind' P HA HO HL y) (go l')
@@ -132,23 +132,35 @@ Proof.
     destruct (IH Hw l' r r') as [-> ->]; [lia|assumption|exact He|now split].
 Qed.
 
+Lemma seq_kind_not_ndarray k : is_seq_kind k = true -> k <> t_ndarray.
+Proof. intros H ->. discriminate H. Qed.
+
 Lemma toks_arg_inj_all : forall x, ArgInj x.
 Proof.
-  induction x as [dt sh d|ty rp|l IH] using arg_ind'; intros Hw x' r r' Hw' He.
-  - destruct x' as [dt' sh' d'|ty' rp'|l']; cbn [toks_arg app] in He.
+  induction x as [dt sh d|ty rp|k l IH] using arg_ind'; intros Hw x' r r' Hw' He.
+  - destruct x' as [dt' sh' d'|ty' rp'|k' l']; cbn [toks_arg app] in He.
     + injection He as -> -> -> ->. now split.
     + exfalso. apply cons_eq in He as [Hty _]. subst ty'. simpl in Hw'. discriminate Hw'.
-    + exfalso. apply cons_eq in He as [Hty _]. discriminate Hty.
-  - destruct x' as [dt' sh' d'|ty' rp'|l']; cbn [toks_arg app] in He.
+    + exfalso. apply cons_eq in He as [Hty _]. cbn [wf_arg] in Hw'.
+      apply andb_true_iff in Hw' as [Hw' _]. apply andb_true_iff in Hw' as [Hk _].
+      apply seq_kind_not_ndarray in Hk. congruence.
+  - destruct x' as [dt' sh' d'|ty' rp'|k' l']; cbn [toks_arg app] in He.
     + exfalso. apply cons_eq in He as [Hty _]. subst ty. simpl in Hw. discriminate Hw.
     + injection He as -> -> ->. now split.
-    + exfalso. apply cons_eq in He as [Hty _]. subst ty. simpl in Hw. discriminate Hw.
-  - destruct x' as [dt' sh' d'|ty' rp'|l']; cbn [toks_arg app] in He.
-    + exfalso. apply cons_eq in He as [Hty _]. discriminate Hty.
-    + exfalso. apply cons_eq in He as [Hty _]. subst ty'. simpl in Hw'. discriminate Hw'.
+    + exfalso. apply cons_eq in He as [Hty _]. subst ty. cbn [wf_arg] in Hw, Hw'.
+      apply andb_true_iff in Hw' as [Hw' _]. apply andb_true_iff in Hw' as [Hk _].
+      rewrite Hk in Hw. simpl in Hw. rewrite andb_false_r in Hw. discriminate Hw.
+  - destruct x' as [dt' sh' d'|ty' rp'|k' l']; cbn [toks_arg app] in He.
+    + exfalso. apply cons_eq in He as [Hty _]. cbn [wf_arg] in Hw.
+      apply andb_true_iff in Hw as [Hw _]. apply andb_true_iff in Hw as [Hk _].
+      apply seq_kind_not_ndarray in Hk. congruence.
+    + exfalso. apply cons_eq in He as [Hty _]. subst ty'. cbn [wf_arg] in Hw, Hw'.
+      apply andb_true_iff in Hw as [Hw _]. apply andb_true_iff in Hw as [Hk _].
+      rewrite Hk in Hw'. simpl in Hw'. rewrite andb_false_r in Hw'. discriminate Hw'.
     + cbn [wf_arg] in Hw, Hw'.
-      apply andb_true_iff in Hw as [Hf Hn]. apply andb_true_iff in Hw' as [Hf' Hn'].
-      apply cons_eq in He as [_ He]. apply cons_eq in He as [Hlen He].
+      apply andb_true_iff in Hw as [Hw Hn]. apply andb_true_iff in Hw as [_ Hf].
+      apply andb_true_iff in Hw' as [Hw' Hn']. apply andb_true_iff in Hw' as [_ Hf'].
+      apply cons_eq in He as [-> He]. apply cons_eq in He as [Hlen He].
       apply le8_inj in Hlen; [|lia|lia].
       apply (toks_args_inj_F l IH Hf) in He as [-> ->]; [now split|lia|assumption].
 Qed.
@@ -215,12 +227,19 @@ Proof. unfold small, blen. rewrite le8_length. reflexivity. Qed.
 Lemma smalls_app a b : smalls a -> smalls b -> smalls (a ++ b).
 Proof. unfold smalls. intros; apply Forall_app; now split. Qed.
 
+Lemma seq_kind_small k : is_seq_kind k = true -> small k = true.
+Proof.
+  unfold is_seq_kind. intros H.
+  repeat (apply orb_true_iff in H as [H|H]); apply beqb_eq in H; subst; reflexivity.
+Qed.
+
 Lemma smalls_arg : forall x, wf_arg x = true -> smalls (toks_arg x).
 Proof.
-  induction x as [dt sh d|ty rp|l IH] using arg_ind'; cbn [wf_arg toks_arg]; intros H.
+  induction x as [dt sh d|ty rp|k l IH] using arg_ind'; cbn [wf_arg toks_arg]; intros H.
   - repeat (apply andb_true_iff in H as [H ?]); repeat constructor; assumption.
   - repeat (apply andb_true_iff in H as [H ?]); repeat constructor; assumption.
-  - apply andb_true_iff in H as [H _]. constructor; [reflexivity|].
+  - apply andb_true_iff in H as [H _]. apply andb_true_iff in H as [Hk H].
+    constructor; [now apply seq_kind_small|].
     constructor; [apply small_le8|].
     induction IH as [|a l Ha IH IH2]; cbn [flat_map]; [constructor|].
     cbn [forallb] in H. apply andb_true_iff in H as [Hwa H].
@@ -292,7 +311,7 @@ Definition w_dtype_2 : sig :=
 
 (* (3) bins=55 vs bins=[5, 5] *)
 Definition w_list_1 : sig := mk_sig [Oth t_int [53; 53]].
-Definition w_list_2 : sig := mk_sig [Lst [Oth t_int [53]; Oth t_int [53]]].
+Definition w_list_2 : sig := mk_sig [Seq t_list [Oth t_int [53]; Oth t_int [53]]].
 
 Lemma key_old_not_injective :
   exists c c', wf_sig c = true /\ wf_sig c' = true /\ c <> c' /\ key_old c = key_old c'.
@@ -322,7 +341,9 @@ Proof. vm_compute. repeat split. Qed.
 (* non-vacuity of key_new_inj: a signature with arrays, a list, kwargs *)
 Example wf_example :
   wf_sig {| s_pos := [Arr f8 [40; 49; 44; 41] [0; 0; 128; 63; 0; 0; 0; 64];
-                      Lst [Oth t_int [53]; Lst [Oth t_int [53]; Lst []]]];
+                      Seq t_list [Oth t_int [53]; Seq t_tuple [Oth t_int [53]; Seq t_dict []]];
+                      Seq t_masked [Arr f8 [40; 49; 44; 41] [0; 0; 128; 63; 0; 0; 0; 64];
+                                    Arr [124; 98; 49] [40; 49; 44; 41] [0]]];
             s_kw := [([98; 105; 110; 115], Oth t_int [53; 53])];
             s_name := nm0; s_doc := Oth [78; 111; 110; 101; 84; 121; 112; 101] [78; 111; 110; 101];
             s_file := nm0 |} = true.
